@@ -12,6 +12,11 @@ Line protocol for the C18 model (`Model/WoehlerAnalysis.lean`) at `Float`.  A da
   c18.probit tests…                     -> k_1 ND SD TN TS
   c18.ols    (x y)…                     -> slope intercept
   c18.lik    SD TS k_1 ND TN tests…     -> fin inf                   (hex | -inf)
+  c18.mlinf  r1 r2 tests…               -> k_1 ND SD TN TS           (`maxLikeInf` with the optimiser answering `(r1, r2)`)
+  c18.mlinfobj p1 p2 tests…             -> value                     (objective of MaxLikeInf at the relative point; hex | -inf)
+  c18.mlfull r_k1 r_ND r_SD r_TN r_TS tests… -> mode k_1 ND SD TN TS (`maxLikeFull` with the optimiser answering `r`; mode =
+                                                                      norun | fixTS | free: which parameters the code fixes)
+  c18.mlfullobj r_k1 r_ND r_SD r_TN r_TS tests… -> value             (objective of MaxLikeFull at the relative point)
 
 `Φ` is the driver's own distribution function (`Driver/FailureProb.lean`), `Φ⁻¹` its inverse by bisection.
 -/
@@ -54,6 +59,15 @@ def showOpt : Option Float → String
   | some x => floatHex x
   | none => "-inf"
 
+/-- relative parameter vector in the order k_1 ND SD TN TS -/
+def parseRel (a b c e f : String) : Option (Curve Float) := do
+  let a ← parseFloat? a
+  let b ← parseFloat? b
+  let c ← parseFloat? c
+  let e ← parseFloat? e
+  let f ← parseFloat? f
+  some { k1 := a, ND := b, SD := c, TN := e, TS := f }
+
 def sameTest (a b : Test Float) : Bool := a.load == b.load && a.cycles == b.cycles && a.fracture == b.fracture
 
 def handle : List String → Option String
@@ -62,12 +76,11 @@ def handle : List String → Option String
     let fz := finiteZone d
     let iz := infiniteZone d
     let tr := transition d
-    -- zone membership is decided by the zone predicates (the zones are filters of the data set)
-    let noRun := (runouts d).isEmpty
-    let m := maxRunoutLoad d
+    -- zone membership = membership in the MODEL's zone lists (tests are compared field by field; identical tests are in
+    -- the same zone anyway since the zones are filters)
     let flag (t : Test Float) : String :=
-      let inF := if noRun then true else (t.fracture && m < t.load)
-      let inI := if noRun then false else t.load ≤ m
+      let inF := fz.any (sameTest t)
+      let inI := iz.any (sameTest t)
       if inF && inI then "B" else if inF then "F" else if inI then "I" else "N"
     some s!"{floatHex tr} {fz.length} {iz.length} | {" ".intercalate (d.map flag)}"
   | "c18.drop" :: rest => do
@@ -92,6 +105,27 @@ def handle : List String → Option String
     let tn ← parseFloat? tn
     let d ← parseTests rest
     some s!"{showOpt (likFinite d sd k nd tn)} {showOpt (likInfinite phi d sd ts)}"
+  | "c18.mlinf" :: r1 :: r2 :: rest => do
+    let r1 ← parseFloat? r1
+    let r2 ← parseFloat? r2
+    let d ← parseTests rest
+    some (showCurve (maxLikeInf quantile phi (fun _ => (r1, r2)) d))
+  | "c18.mlinfobj" :: p1 :: p2 :: rest => do
+    let p1 ← parseFloat? p1
+    let p2 ← parseFloat? p2
+    let d ← parseTests rest
+    some (showOpt (maxLikeInfObjective phi (irrelevantRunoutsDropped d) (p1, p2)))
+  | "c18.mlfull" :: a :: b :: c :: e :: f :: rest => do
+    let r ← parseRel a b c e f
+    let d ← parseTests rest
+    let dd := irrelevantRunoutsDropped d
+    let mode := if (runouts dd).isEmpty then "norun" else if fewMixedLevels dd then "fixTS" else "free"
+    some s!"{mode} {showCurve (maxLikeFull quantile phi (fun _ => r) d)}"
+  | "c18.mlfullobj" :: a :: b :: c :: e :: f :: rest => do
+    let r ← parseRel a b c e f
+    let d ← parseTests rest
+    let dd := irrelevantRunoutsDropped d
+    some (showOpt (maxLikeFullObjective phi dd (elementaryCore quantile dd) r))
   | _ => none
 
 end PylifeVerif.Driver.C18
